@@ -360,10 +360,13 @@ func exhaustiveC04(thorough bool, emit func(C04Case) bool) {
 	// Name of the first and of a later record
 	for n := 3; n <= 12; n += 3 {
 		for _, tok := range gen.HostileTokens {
-			for pos := 0; pos < 2; pos++ {
+			for pos := 0; pos < 3; pos++ {
 				val := append(append(gen.B{}, tok...), 'x')
 				if pos == 1 {
 					val = append(append(gen.B{'x'}, tok...), 'y')
+				}
+				if pos == 2 {
+					val = append(gen.B{}, tok...) // the token is the whole field
 				}
 				r1, r2 := baseBedRec(n), baseBedRec(n)
 				r1.Chrom, r2.Name = val, val
